@@ -29,7 +29,7 @@ Functional(runs) ==
      runs[a].order[i] = runs[b].order[j] => runs[a].obs[i] = runs[b].obs[j]
 \* first disagreement, for the verdict line
 Disagreements(runs) ==
-  {<<a, i, b, j>> \in (1..Len(runs)) \X (1..8) \X (1..Len(runs)) \X (1..8) :
+  {<<a, i, b, j>> \in (1..Len(runs)) \X (1..12) \X (1..Len(runs)) \X (1..12) :
       /\ i <= Len(runs[a].order) /\ j <= Len(runs[b].order)
       /\ runs[a].order[i] = runs[b].order[j] /\ runs[a].obs[i] # runs[b].obs[j]}
 \* head_content names: equal names exactly for equal rendered content; equal content once per document
